@@ -117,7 +117,9 @@ class InversionImagingMapping(AbstractInversionImaging):
         The calculation is described in more detail in `inversion_util.data_vector_via_blurred_mapping_matrix_from`.
         """
 
-        if self.preloads.data_vector_mapper is not None:
+        if self.preloads.data_vector_mapper is not None and self.total(
+            cls=AbstractMapper
+        ) == len(self.linear_obj_list):
             return self.preloads.data_vector_mapper
 
         if self.preloads.operated_mapping_matrix is not None:
